@@ -311,11 +311,13 @@ Proof. intros H. unfold space_list_check. rewrite H. reflexivity. Qed.
 (* last_left is a completed operand: a value, a suffix operator node, or a closed bracket *)
 Lemma slc_operand st ug l ln :
   last_left st = Some l -> nth_error (nodes st) l = Some ln ->
+  definition_eqb (n_def ln) D_SideEffect = false ->
   (is_value_like (n_def ln) = true \/ n_sec ln = S_UnarySuffix \/
    (n_def ln = D_Group /\ opt_nat_eqb (Some l) ug = false)) ->
   space_list_check st ug = Ok true.
 Proof.
-  intros Hll Hln H. unfold space_list_check. rewrite Hll, Hln. destruct H as [H|[H|[H1 H2]]].
+  intros Hll Hln Hse H. unfold space_list_check. rewrite Hll, Hln, Hse. cbn [andb bind].
+  destruct H as [H|[H|[H1 H2]]].
   - rewrite H. reflexivity.
   - rewrite H. cbn [secondary_eqb secondary_index N.eqb Pos.eqb]. rewrite orb_true_r. reflexivity.
   - rewrite H1, H2. reflexivity.
@@ -330,5 +332,6 @@ Lemma slc_frame st ug l ln :
     && negb (opt_nat_eqb (Some l) ug) = false ->
   space_list_check st ug = Ok false.
 Proof.
-  intros Hll Hln Hcfl Hv Hs Hse Hg. unfold space_list_check. rewrite Hll, Hln, Hcfl, Hv, Hs, Hse, Hg. reflexivity.
+  intros Hll Hln Hcfl Hv Hs Hse Hg. unfold space_list_check. rewrite Hll, Hln, Hse. cbn [andb bind].
+  rewrite Hcfl, Hv, Hs, Hg. reflexivity.
 Qed.
